@@ -592,7 +592,10 @@ func bytesID(b []byte) int {
 }
 
 // ValueTypes lists the value-type variants exercised by C18.
-var ValueTypes = []string{"int", "string", "ptr", "bytes", "big", "empty", "any"}
+// i32, u8 and arr12 are pointer-free values whose size is not a multiple of the word size: a leaf
+// holding them has no padding behind its last field, so a read or write one byte past a field
+// lands in the neighbouring heap object (u8 values carry the id modulo 256).
+var ValueTypes = []string{"int", "string", "ptr", "bytes", "big", "empty", "any", "i32", "u8", "arr12"}
 
 func newSubjectFor(e *Engine, k Kind) Subject {
 	if e.cfg.Arena {
@@ -631,6 +634,19 @@ func newSubjectFor(e *Engine, k Kind) Subject {
 					}
 				}
 				return id
+			}})
+	case "i32":
+		return NewSubject(k, ValCodec[int32]{Name: "i32", To: func(id int) int32 { return int32(id) }, Back: func(v int32) int { return int(v) }})
+	case "u8":
+		return NewSubject(k, ValCodec[uint8]{Name: "u8", To: func(id int) uint8 { return uint8(id) }, Back: func(v uint8) int { return int(v) }})
+	case "arr12":
+		return NewSubject(k, ValCodec[[3]int32]{Name: "arr12",
+			To: func(id int) [3]int32 { return [3]int32{int32(id), int32(id) * 3, ^int32(id)} },
+			Back: func(v [3]int32) int {
+				if v[1] != v[0]*3 || v[2] != ^v[0] {
+					return -1
+				}
+				return int(v[0])
 			}})
 	case "empty":
 		return NewSubject(k, ValCodec[struct{}]{Name: "empty", To: func(int) struct{} { return struct{}{} }, Back: func(struct{}) int { return 0 }})
